@@ -545,7 +545,7 @@ static void _flush_lines (cbuf_t cb, out_f outf, bool read_rc, thd_t *th)
                 err ("%p: %S: Failed to read line from buffer: %m\n", th->host);
                 break;
             }
-            if (read_rc)
+            if (read_rc && strstr (buf, RC_MAGIC))
                 th->rc = _extract_rc (buf);
             if (strlen (buf) > 0) {
                 /*
